@@ -77,7 +77,7 @@ func (a Assertions) toMap() map[string]any {
 	switch a.Strategy {
 	case "exact-list":
 		m["scopes"] = anyList(a.Scopes)
-	case "exact", "wildcard":
+	case "exact", "wildcard", "hierarchic":
 		m["scopes"] = map[string]any{"matching_strategy": a.Strategy, "values": anyList(a.Scopes)}
 	}
 
@@ -129,6 +129,8 @@ func (a Assertions) expect(idFrom, attrFrom string) *Expect {
 		e.Strategy = "exact"
 	case "wildcard":
 		e.Strategy = "wildcard"
+	case "hierarchic":
+		e.Strategy = "hierarchic"
 	}
 
 	if e.Leeway == 0 {
@@ -187,6 +189,10 @@ func confCases(alg string) []ConfCase {
 		{Name: "proto-wildcard-scopes-leeway30", Quick: true, Proto: Assertions{
 			Issuers: []string{iss1}, Strategy: "wildcard", Scopes: []string{"api.read"}, Leeway: 30, Allowed: allowX,
 		}},
+		{Name: "proto-hierarchic-scopes", Quick: true, Proto: Assertions{
+			Issuers: []string{iss1}, Strategy: "hierarchic", Scopes: []string{"api.read", "billing"}, Allowed: allowX,
+		}},
+		{Name: "rule-hierarchic-scopes", Proto: minimal, Override: &Assertions{Strategy: "hierarchic", Scopes: []string{"api.read", "billing"}}},
 		{Name: "proto-alg-excluded", Quick: true, Proto: Assertions{Issuers: []string{iss1}, Allowed: excl}},
 		{Name: "rule-adds-audience-and-scopes", Quick: true, Proto: minimal, Override: &Assertions{
 			Audience: []string{"aud-one"}, Strategy: "exact", Scopes: []string{"read"},
